@@ -418,7 +418,13 @@ func checkHandleProcessExit(c *report.Ctx) {
 				return isC && n == 0 && ft.Val == want
 			})
 		}
-		ok = zero(ex[0].Block(), true) && !zero(sf[0].Block(), true)
+		// ... or the same test made by the termination's own Success() (ExitStatus != nil && *ExitStatus == 0)
+		success := func(b *ssa.BasicBlock, want bool) bool {
+			return facts.Holds(b, func(ft an.Fact) bool {
+				return ft.Val == want && an.IsResultOf(ft.Cond, "L/supervisor/model.ProcessTermination.Success", -1)
+			})
+		}
+		ok = (zero(ex[0].Block(), true) && !zero(sf[0].Block(), true)) || (success(ex[0].Block(), true) && success(sf[0].Block(), false))
 	}
 	c.Check("R-GUARD", name+"/status-mapping", "an awaited extension that exited with status 0 becomes Exited, anything else ShutdownFailed", ok, fpos(f), 2, "%v", ok)
 	closes := an.Calls(f, func(s string) bool { return s == "builtin.close" })
